@@ -79,140 +79,439 @@ theorem Item.err_of_failed (t : Tables) (bi : Item) (h : bi.status ≠ statusSuc
 
 /-! ### `BatchOpt` -/
 
-theorem batchOpt_msg (n : Nat) (h : Int) (items : List Item) :
-    batchOpt n (.msg h items) =
-      if h ≠ (items.length : Int) ∨ items.length ≠ n then .err .countMismatch else .ok items := rfl
+/-- what `BatchOpt` demands of the item answering the operation `o`: not a success, or a payload of `o`. -/
+def ItemOk (bi : Item) (o : Nat) : Prop :=
+  bi.status ≠ statusSuccess ∨ ∃ p, bi.payload = some p ∧ p.operation = o
 
-theorem batchOpt_ne_panic (n : Nat) (rt : RoundTrip) : batchOpt n rt ≠ .panic := by
+/-- … of the items against the requested operations, position by position (same length included). -/
+def Conforms : List Item → List Nat → Prop
+  | [], [] => True
+  | bi :: rest, o :: ops => ItemOk bi o ∧ Conforms rest ops
+  | [], _ :: _ => False
+  | _ :: _, [] => False
+
+theorem conforms_cons (bi : Item) (rest : List Item) (o : Nat) (ops : List Nat) :
+    Conforms (bi :: rest) (o :: ops) ↔ (ItemOk bi o ∧ Conforms rest ops) := Iff.rfl
+
+theorem Conforms.length_eq : ∀ {items : List Item} {ops : List Nat}, Conforms items ops → items.length = ops.length
+  | [], [], _ => rfl
+  | [], _ :: _, h => by cases h
+  | _ :: _, [], h => by cases h
+  | _ :: rest, _ :: ops, h => by
+    simp only [List.length_cons]
+    rw [Conforms.length_eq h.2]
+
+/-- the successful payloads answer the requested operations, position by position. -/
+def PayloadsOf : List (Option Payload) → List Nat → Prop
+  | [], [] => True
+  | q :: qs, o :: ops => (∃ p, q = some p ∧ p.operation = o) ∧ PayloadsOf qs ops
+  | [], _ :: _ => False
+  | _ :: _, [] => False
+
+/-- `payloads[i]` never goes out of range once the counts were compared. -/
+theorem checkItems_ne_none (t : Tables) : ∀ (items : List Item) (ops : List Nat) (i : Nat),
+    items.length ≤ ops.length → checkItems t i ops items ≠ none
+  | [], _, _, _ => by simp [checkItems]
+  | bi :: rest, ops, i, hl => by
+    have hl' : rest.length ≤ ops.tail.length := by
+      simp only [List.length_cons, List.length_tail] at hl ⊢; omega
+    have ih := checkItems_ne_none t rest ops.tail (i + 1) hl'
+    unfold checkItems
+    by_cases hs : bi.status ≠ statusSuccess
+    · rw [if_pos hs]
+      cases h : checkItems t (i + 1) ops.tail rest with
+      | none => exact absurd h ih
+      | some r => simp
+    · rw [if_neg hs]
+      cases hp : bi.payload with
+      | none =>
+        simp only
+        cases h : checkItems t (i + 1) ops.tail rest with
+        | none => exact absurd h ih
+        | some r => simp
+      | some p =>
+        cases ops with
+        | nil => simp at hl
+        | cons o ops' =>
+          simp only [List.tail_cons] at ih
+          simp only
+          cases h : checkItems t (i + 1) ops' rest with
+          | none => exact absurd h ih
+          | some r =>
+            simp only
+            by_cases hop : p.operation ≠ o
+            · rw [if_pos hop]; simp
+            · rw [if_neg hop]; simp
+
+/-- the violation flag is clear exactly when the items conform. -/
+theorem checkItems_flag (t : Tables) : ∀ (items : List Item) (ops : List Nat) (i : Nat) (r : List ItemErr × Bool),
+    items.length = ops.length → checkItems t i ops items = some r → (r.2 = false ↔ Conforms items ops)
+  | [], ops, _, r, hl, h => by
+    cases ops with
+    | nil =>
+      simp [checkItems] at h
+      subst h
+      simp [Conforms]
+    | cons o ops' => simp at hl
+  | bi :: rest, ops, i, r, hl, h => by
+    cases ops with
+    | nil => simp at hl
+    | cons o ops' =>
+      have hl' : rest.length = ops'.length := by simpa using hl
+      rw [conforms_cons]
+      unfold checkItems at h
+      simp only [List.tail_cons] at h
+      by_cases hs : bi.status ≠ statusSuccess
+      · rw [if_pos hs] at h
+        cases hr : checkItems t (i + 1) ops' rest with
+        | none => rw [hr] at h; cases h
+        | some r' =>
+          rw [hr] at h
+          simp only [Option.some.injEq] at h
+          subst h
+          have ih := checkItems_flag t rest ops' (i + 1) r' hl' hr
+          simp only
+          rw [ih]
+          exact ⟨fun hc => ⟨.inl hs, hc⟩, fun hc => hc.2⟩
+      · rw [if_neg hs] at h
+        have hst : bi.status = statusSuccess := by simpa using hs
+        cases hp : bi.payload with
+        | none =>
+          rw [hp] at h
+          simp only at h
+          cases hr : checkItems t (i + 1) ops' rest with
+          | none => rw [hr] at h; cases h
+          | some r' =>
+            rw [hr] at h
+            simp only [Option.some.injEq] at h
+            subst h
+            simp only [Bool.true_eq_false, false_iff]
+            intro ⟨hok, _⟩
+            rcases hok with hok | ⟨p, hp', _⟩
+            · exact hok hst
+            · rw [hp] at hp'; cases hp'
+        | some p =>
+          rw [hp] at h
+          simp only at h
+          cases hr : checkItems t (i + 1) ops' rest with
+          | none => rw [hr] at h; cases h
+          | some r' =>
+            rw [hr] at h
+            simp only at h
+            have ih := checkItems_flag t rest ops' (i + 1) r' hl' hr
+            by_cases hop : p.operation ≠ o
+            · rw [if_pos hop] at h
+              simp only [Option.some.injEq] at h
+              subst h
+              simp only [Bool.true_eq_false, false_iff]
+              intro ⟨hok, _⟩
+              rcases hok with hok | ⟨q, hq, hqo⟩
+              · exact hok hst
+              · rw [hp] at hq; cases hq; exact hop hqo
+            · rw [if_neg hop] at h
+              simp only [Option.some.injEq] at h
+              subst h
+              rw [ih]
+              have hop' : p.operation = o := by simpa using hop
+              exact ⟨fun hc => ⟨.inr ⟨p, hp, hop'⟩, hc⟩, fun hc => hc.2⟩
+
+/-- every failed item has its `Err()` among the collected lines (also when the response is refused). -/
+theorem checkItems_reports (t : Tables) : ∀ (items : List Item) (ops : List Nat) (i : Nat) (r : List ItemErr × Bool),
+    checkItems t i ops items = some r → ∀ bi, bi ∈ items → bi.status ≠ statusSuccess →
+      ItemErr.item (enumStr t.ops bi.op) (enumStr t.status bi.status) (enumStr t.reasons bi.reason) bi.msg ∈ r.1
+  | [], _, _, _, _, bi, hbi, _ => by simp at hbi
+  | b :: rest, ops, i, r, h, bi, hbi, hs => by
+    unfold checkItems at h
+    have tailcase : ∀ (ops' : List Nat) (r' : List ItemErr × Bool), checkItems t (i + 1) ops' rest = some r' →
+        bi ∈ rest → ItemErr.item (enumStr t.ops bi.op) (enumStr t.status bi.status) (enumStr t.reasons bi.reason) bi.msg ∈ r'.1 :=
+      fun ops' r' hr hm => checkItems_reports t rest ops' (i + 1) r' hr bi hm hs
+    by_cases hb : b.status ≠ statusSuccess
+    · rw [if_pos hb] at h
+      cases hr : checkItems t (i + 1) ops.tail rest with
+      | none => rw [hr] at h; cases h
+      | some r' =>
+        rw [hr] at h
+        simp only [Option.some.injEq] at h
+        subst h
+        rcases List.mem_cons.1 hbi with rfl | hm
+        · exact List.mem_cons_self ..
+        · exact List.mem_cons_of_mem _ (tailcase _ _ hr hm)
+    · rw [if_neg hb] at h
+      have hm : bi ∈ rest := by
+        rcases List.mem_cons.1 hbi with rfl | hm
+        · exact absurd hs hb
+        · exact hm
+      cases hp : b.payload with
+      | none =>
+        rw [hp] at h
+        simp only at h
+        cases hr : checkItems t (i + 1) ops.tail rest with
+        | none => rw [hr] at h; cases h
+        | some r' =>
+          rw [hr] at h
+          simp only [Option.some.injEq] at h
+          subst h
+          exact List.mem_cons_of_mem _ (tailcase _ _ hr hm)
+      | some p =>
+        rw [hp] at h
+        simp only at h
+        cases ops with
+        | nil => simp at h
+        | cons o ops' =>
+          simp only at h
+          cases hr : checkItems t (i + 1) ops' rest with
+          | none => rw [hr] at h; cases h
+          | some r' =>
+            rw [hr] at h
+            simp only at h
+            by_cases hop : p.operation ≠ o
+            · rw [if_pos hop] at h
+              simp only [Option.some.injEq] at h
+              subst h
+              exact List.mem_cons_of_mem _ (tailcase _ _ hr hm)
+            · rw [if_neg hop] at h
+              simp only [Option.some.injEq] at h
+              subst h
+              exact tailcase _ _ hr hm
+
+theorem batchOpt_msg (t : Tables) (reqOps : List Nat) (h : Int) (items : List Item) :
+    batchOpt t reqOps (.msg h items) =
+      if h ≠ (items.length : Int) ∨ items.length ≠ reqOps.length then .err .countMismatch
+      else
+        match checkItems t 0 reqOps items with
+        | none => .panic
+        | some r => if r.2 then .err (.joined r.1) else .ok items := rfl
+
+theorem batchOpt_err (t : Tables) (reqOps : List Nat) (h : Int) (items : List Item)
+    (hc : h ≠ (items.length : Int) ∨ items.length ≠ reqOps.length) :
+    batchOpt t reqOps (.msg h items) = .err .countMismatch := by
+  rw [batchOpt_msg, if_pos hc]
+
+theorem batchOpt_ne_panic (t : Tables) (reqOps : List Nat) (rt : RoundTrip) : batchOpt t reqOps rt ≠ .panic := by
   cases rt with
   | fail => simp [batchOpt]
   | msg h items =>
     rw [batchOpt_msg]
-    split <;> simp
+    by_cases hc : h ≠ (items.length : Int) ∨ items.length ≠ reqOps.length
+    · rw [if_pos hc]; simp
+    · rw [if_neg hc]
+      have hl : items.length ≤ reqOps.length := by omega
+      cases hr : checkItems t 0 reqOps items with
+      | none => exact absurd hr (checkItems_ne_none t items reqOps 0 hl)
+      | some r => simp only; split <;> simp
 
-theorem batchOpt_ok_iff (n : Nat) (rt : RoundTrip) (items : List Item) :
-    batchOpt n rt = .ok items ↔ (rt = .msg (items.length : Int) items ∧ items.length = n) := by
+/-- `BatchOpt` hands the items to the caller exactly when the counts agree and every successful item
+    carries a payload of the operation requested at its position. -/
+theorem batchOpt_ok_iff (t : Tables) (reqOps : List Nat) (rt : RoundTrip) (items : List Item) :
+    batchOpt t reqOps rt = .ok items ↔ (rt = .msg (items.length : Int) items ∧ Conforms items reqOps) := by
   cases rt with
-  | fail => simp [batchOpt]
+  | fail =>
+    simp only [batchOpt]
+    constructor
+    · intro h; cases h
+    · intro ⟨h, _⟩; cases h
   | msg h its =>
     rw [batchOpt_msg]
-    by_cases hc : h ≠ (its.length : Int) ∨ its.length ≠ n
+    by_cases hc : h ≠ (its.length : Int) ∨ its.length ≠ reqOps.length
     · rw [if_pos hc]
       constructor
       · intro h'; cases h'
       · intro ⟨h1, h2⟩
-        cases h1
+        simp only [RoundTrip.msg.injEq] at h1
+        obtain ⟨h1a, h1b⟩ := h1
+        subst h1b
+        have := h2.length_eq
         omega
     · rw [if_neg hc]
-      constructor
-      · intro h'
-        simp only [Res.ok.injEq] at h'
-        subst h'
-        refine ⟨?_, by omega⟩
-        have : h = (its.length : Int) := by omega
-        rw [this]
-      · intro ⟨h1, _⟩
-        cases h1
-        rfl
+      have hl : its.length = reqOps.length := by omega
+      cases hr : checkItems t 0 reqOps its with
+      | none => exact absurd hr (checkItems_ne_none t its reqOps 0 (by omega))
+      | some r =>
+        simp only
+        have hflag := checkItems_flag t its reqOps 0 r hl hr
+        by_cases hv : r.2 = true
+        · rw [if_pos hv]
+          constructor
+          · intro h'; cases h'
+          · intro ⟨h1, h2⟩
+            simp only [RoundTrip.msg.injEq] at h1
+            rw [← h1.2] at h2
+            have := hflag.2 h2
+            rw [hv] at this
+            cases this
+        · rw [if_neg hv]
+          have hv' : r.2 = false := by simpa using hv
+          constructor
+          · intro h'
+            simp only [Res.ok.injEq] at h'
+            subst h'
+            refine ⟨?_, hflag.1 hv'⟩
+            have : h = (its.length : Int) := by omega
+            rw [this]
+          · intro ⟨h1, _⟩
+            simp only [RoundTrip.msg.injEq] at h1
+            rw [h1.2]
 
-theorem batchOpt_err (n : Nat) (h : Int) (items : List Item) (hc : h ≠ (items.length : Int) ∨ items.length ≠ n) :
-    batchOpt n (.msg h items) = .err .countMismatch := by
-  simp [batchOpt, hc]
+/-- a refused response: the joined error still lists the `Err()` of every failed item. -/
+theorem batchOpt_joined (t : Tables) (reqOps : List Nat) (rt : RoundTrip) (es : List ItemErr)
+    (h : batchOpt t reqOps rt = .err (.joined es)) :
+    ∃ hc items, rt = .msg hc items ∧ items.length = reqOps.length ∧ ¬ Conforms items reqOps ∧
+      ∀ bi, bi ∈ items → bi.status ≠ statusSuccess →
+        ItemErr.item (enumStr t.ops bi.op) (enumStr t.status bi.status) (enumStr t.reasons bi.reason) bi.msg ∈ es := by
+  cases rt with
+  | fail => simp [batchOpt] at h
+  | msg hc its =>
+    rw [batchOpt_msg] at h
+    by_cases hcnt : hc ≠ (its.length : Int) ∨ its.length ≠ reqOps.length
+    · rw [if_pos hcnt] at h; cases h
+    · rw [if_neg hcnt] at h
+      have hl : its.length = reqOps.length := by omega
+      cases hr : checkItems t 0 reqOps its with
+      | none => exact absurd hr (checkItems_ne_none t its reqOps 0 (by omega))
+      | some r =>
+        rw [hr] at h
+        simp only at h
+        by_cases hv : r.2 = true
+        · rw [if_pos hv] at h
+          simp only [Res.err.injEq, Err.joined.injEq] at h
+          subst h
+          refine ⟨hc, its, rfl, hl, ?_, checkItems_reports t its reqOps 0 r hr⟩
+          intro hconf
+          have := (checkItems_flag t its reqOps 0 r hl hr).2 hconf
+          rw [hv] at this
+          cases this
+        · rw [if_neg hv] at h; cases h
+
+/-- counts right but some successful item lacks the requested operation's payload: refused. -/
+theorem batchOpt_refuses (t : Tables) (reqOps : List Nat) (items : List Item)
+    (hl : items.length = reqOps.length) (hn : ¬ Conforms items reqOps) :
+    ∃ es, batchOpt t reqOps (.msg (items.length : Int) items) = .err (.joined es) := by
+  rw [batchOpt_msg]
+  have hc : ¬ ((items.length : Int) ≠ (items.length : Int) ∨ items.length ≠ reqOps.length) := by omega
+  rw [if_neg hc]
+  cases hr : checkItems t 0 reqOps items with
+  | none => exact absurd hr (checkItems_ne_none t items reqOps 0 (by omega))
+  | some r =>
+    simp only
+    have hflag := checkItems_flag t items reqOps 0 r hl hr
+    have hv : r.2 = true := by
+      cases hb : r.2 with
+      | true => rfl
+      | false => exact absurd (hflag.1 hb) hn
+    rw [if_pos hv]
+    exact ⟨r.1, rfl⟩
 
 /-! ### `Request` -/
 
-/-- the part of `Request` after `bi := resp[0]`. -/
-theorem request_msg_one (t : Tables) (reqOp : Nat) (bi : Item) :
-    request t reqOp (.msg 1 [bi]) =
-      match bi.err t with
-      | some e => .err e
-      | none =>
-        match bi.payload with
-        | none => .err .missingPayload
-        | some p =>
-          if p.operation ≠ reqOp then .err (.wrongOperation (enumStr t.ops p.operation) (enumStr t.ops reqOp))
-          else .ok p := by
-  simp [request, batchOpt]
-  rfl
+theorem requestItem_ok_iff (t : Tables) (reqOp : Nat) (bi : Item) (p : Payload) :
+    requestItem t reqOp bi = .ok p ↔ (bi.status = statusSuccess ∧ bi.payload = some p ∧ p.operation = reqOp) := by
+  unfold requestItem
+  cases he : bi.err t with
+  | some e =>
+    simp only
+    constructor
+    · intro h; cases h
+    · intro ⟨hs, _⟩
+      rw [(Item.err_eq_none t bi).2 hs] at he
+      cases he
+  | none =>
+    have hst := (Item.err_eq_none t bi).1 he
+    simp only
+    cases hp : bi.payload with
+    | none => simp
+    | some q =>
+      simp only
+      by_cases hop : q.operation ≠ reqOp
+      · rw [if_pos hop]
+        constructor
+        · intro h; cases h
+        · intro ⟨_, h2, h3⟩
+          simp only [Option.some.injEq] at h2
+          subst h2
+          exact absurd h3 hop
+      · rw [if_neg hop]
+        have hop' : q.operation = reqOp := by simpa using hop
+        constructor
+        · intro h
+          simp only [Res.ok.injEq] at h
+          subst h
+          exact ⟨hst, rfl, hop'⟩
+        · intro ⟨_, h2, _⟩
+          simp only [Option.some.injEq] at h2
+          rw [h2]
+
+theorem conforms_singleton (items : List Item) (o : Nat) (h : Conforms items [o]) :
+    ∃ bi, items = [bi] ∧ ItemOk bi o := by
+  match items, h with
+  | [bi], h => exact ⟨bi, rfl, h.1⟩
+  | _ :: _ :: _, h => exact absurd h.2 (by simp [Conforms])
 
 theorem request_counts (t : Tables) (reqOp : Nat) (h : Int) (items : List Item)
     (hc : h ≠ 1 ∨ items.length ≠ 1) : request t reqOp (.msg h items) = .err .countMismatch := by
-  have : h ≠ (items.length : Int) ∨ items.length ≠ 1 := by omega
-  simp [request, batchOpt_err 1 h items this]
-
-theorem msg_one_of_counts (h : Int) (items : List Item) (hc : ¬ (h ≠ 1 ∨ items.length ≠ 1)) :
-    ∃ bi, RoundTrip.msg h items = .msg 1 [bi] := by
-  have h1 : h = 1 := by omega
-  have h2 : items.length = 1 := by omega
-  match items, h2 with
-  | [bi], _ => exact ⟨bi, by rw [h1]⟩
+  have : h ≠ (items.length : Int) ∨ items.length ≠ [reqOp].length := by
+    simp only [List.length_cons, List.length_nil]; omega
+  simp [request, batchOpt_err t [reqOp] h items this]
 
 theorem request_ne_panic (t : Tables) (reqOp : Nat) (rt : RoundTrip) : request t reqOp rt ≠ .panic := by
-  cases rt with
-  | fail => simp [request, batchOpt]
-  | msg h items =>
-    by_cases hc : h ≠ 1 ∨ items.length ≠ 1
-    · rw [request_counts t reqOp h items hc]; simp
-    · obtain ⟨bi, hbi⟩ := msg_one_of_counts h items hc
-      rw [hbi, request_msg_one]
-      cases bi.err t with
-      | some e => simp
-      | none =>
-        cases bi.payload with
-        | none => simp
-        | some p =>
-          simp only
-          split <;> simp
+  unfold request
+  cases h : batchOpt t [reqOp] rt with
+  | panic => exact absurd h (batchOpt_ne_panic t [reqOp] rt)
+  | err e => simp
+  | ok items =>
+    obtain ⟨_, hconf⟩ := (batchOpt_ok_iff t [reqOp] rt items).1 h
+    obtain ⟨bi, rfl, _⟩ := conforms_singleton items reqOp hconf
+    simp only
+    intro hp
+    unfold requestItem at hp
+    split at hp
+    · cases hp
+    · split at hp
+      · cases hp
+      · split at hp <;> cases hp
 
 /-- `Request` succeeds exactly on a one-item response (header count 1) whose item is a success and
     carries a payload of the requested operation; it then returns that payload. -/
 theorem request_ok_iff (t : Tables) (reqOp : Nat) (rt : RoundTrip) (p : Payload) :
     request t reqOp rt = .ok p ↔
       ∃ bi, rt = .msg 1 [bi] ∧ bi.status = statusSuccess ∧ bi.payload = some p ∧ p.operation = reqOp := by
+  unfold request
   constructor
   · intro h
-    cases rt with
-    | fail => simp [request, batchOpt] at h
-    | msg hc items =>
-      by_cases hcnt : hc ≠ 1 ∨ items.length ≠ 1
-      · rw [request_counts t reqOp hc items hcnt] at h; cases h
-      · obtain ⟨bi, hbi⟩ := msg_one_of_counts hc items hcnt
-        refine ⟨bi, hbi, ?_⟩
-        rw [hbi, request_msg_one] at h
-        cases he : bi.err t with
-        | some e => rw [he] at h; cases h
-        | none =>
-          rw [he] at h
-          have hst := (Item.err_eq_none t bi).1 he
-          cases hp : bi.payload with
-          | none => rw [hp] at h; cases h
-          | some q =>
-            rw [hp] at h
-            simp only at h
-            by_cases hop : q.operation ≠ reqOp
-            · rw [if_pos hop] at h; cases h
-            · rw [if_neg hop] at h
-              cases h
-              exact ⟨hst, rfl, by simpa using hop⟩
-  · intro ⟨bi, hrt, hst, hp, hop⟩
-    rw [hrt, request_msg_one, (Item.err_eq_none t bi).2 hst, hp]
-    simp [hop]
+    cases hb : batchOpt t [reqOp] rt with
+    | panic => rw [hb] at h; cases h
+    | err e => rw [hb] at h; cases h
+    | ok items =>
+      rw [hb] at h
+      obtain ⟨hrt, hconf⟩ := (batchOpt_ok_iff t [reqOp] rt items).1 hb
+      obtain ⟨bi, rfl, _⟩ := conforms_singleton items reqOp hconf
+      simp only at h
+      exact ⟨bi, by simpa using hrt, (requestItem_ok_iff t reqOp bi p).1 h⟩
+  · intro ⟨bi, hrt, hs, hp, hop⟩
+    have hb : batchOpt t [reqOp] rt = .ok [bi] :=
+      (batchOpt_ok_iff t [reqOp] rt [bi]).2 ⟨by simpa using hrt, ⟨.inr ⟨p, hp, hop⟩, trivial⟩⟩
+    rw [hb]
+    simp only
+    exact (requestItem_ok_iff t reqOp bi p).2 ⟨hs, hp, hop⟩
 
 /-- a failed (pending, undone, unknown status …) item is returned as the item's error. -/
 theorem request_failed (t : Tables) (reqOp : Nat) (bi : Item) (h : bi.status ≠ statusSuccess) :
     request t reqOp (.msg 1 [bi]) =
       .err (.item (enumStr t.ops bi.op) (enumStr t.status bi.status) (enumStr t.reasons bi.reason) bi.msg) := by
-  rw [request_msg_one, Item.err_of_failed t bi h]
+  have hb : batchOpt t [reqOp] (.msg 1 [bi]) = .ok [bi] :=
+    (batchOpt_ok_iff t [reqOp] _ [bi]).2 ⟨rfl, ⟨.inl h, trivial⟩⟩
+  simp [request, hb, requestItem, Item.err_of_failed t bi h]
 
+/-- a success item without payload: refused by `BatchOpt`. -/
 theorem request_missing (t : Tables) (reqOp : Nat) (bi : Item) (h : bi.status = statusSuccess)
-    (hp : bi.payload = none) : request t reqOp (.msg 1 [bi]) = .err .missingPayload := by
-  rw [request_msg_one, (Item.err_eq_none t bi).2 h, hp]
+    (hp : bi.payload = none) : request t reqOp (.msg 1 [bi]) = .err (.joined [.missingAt 0]) := by
+  simp [request, batchOpt, checkItems, h, hp]
 
+/-- a success item carrying the payload of another operation: refused by `BatchOpt`. -/
 theorem request_foreign (t : Tables) (reqOp : Nat) (bi : Item) (p : Payload) (h : bi.status = statusSuccess)
     (hp : bi.payload = some p) (hop : p.operation ≠ reqOp) :
-    request t reqOp (.msg 1 [bi]) = .err (.wrongOperation (enumStr t.ops p.operation) (enumStr t.ops reqOp)) := by
-  rw [request_msg_one, (Item.err_eq_none t bi).2 h, hp]
-  simp [hop]
+    request t reqOp (.msg 1 [bi]) =
+      .err (.joined [.wrongOperationAt (enumStr t.ops p.operation) (enumStr t.ops reqOp) 0]) := by
+  simp [request, batchOpt, checkItems, h, hp, hop]
 
 /-! ### `ExecContext` -/
 
@@ -320,8 +619,8 @@ theorem unwrap_no_error_iff (t : Tables) (items : List Item) :
 theorem batchUnwrap_ne_panic (t : Tables) (reqOps : List Nat) (rt : RoundTrip) :
     batchUnwrap t reqOps rt ≠ .panic := by
   unfold batchUnwrap
-  have := batchOpt_ne_panic reqOps.length rt
-  cases h : batchOpt reqOps.length rt with
+  have := batchOpt_ne_panic t reqOps rt
+  cases h : batchOpt t reqOps rt with
   | ok items => simp
   | err e => simp
   | panic => exact absurd h this
@@ -329,11 +628,11 @@ theorem batchUnwrap_ne_panic (t : Tables) (reqOps : List Nat) (rt : RoundTrip) :
 theorem batchUnwrap_ok_iff (t : Tables) (reqOps : List Nat) (rt : RoundTrip)
     (r : List (Option Payload) × List Err) :
     batchUnwrap t reqOps rt = .ok r ↔
-      ∃ items, rt = .msg (items.length : Int) items ∧ items.length = reqOps.length ∧ r = unwrap t items := by
+      ∃ items, rt = .msg (items.length : Int) items ∧ Conforms items reqOps ∧ r = unwrap t items := by
   unfold batchUnwrap
-  cases h : batchOpt reqOps.length rt with
+  cases h : batchOpt t reqOps rt with
   | ok items =>
-    have hi := (batchOpt_ok_iff _ _ _).1 h
+    have hi := (batchOpt_ok_iff _ _ _ _).1 h
     simp only [Res.ok.injEq]
     constructor
     · intro h'; exact ⟨items, hi.1, hi.2, h'.symm⟩
@@ -346,9 +645,64 @@ theorem batchUnwrap_ok_iff (t : Tables) (reqOps : List Nat) (rt : RoundTrip)
     constructor
     · intro h'; cases h'
     · intro ⟨its, h1, h2, _⟩
-      have := (batchOpt_ok_iff reqOps.length rt its).2 ⟨h1, h2⟩
+      have := (batchOpt_ok_iff t reqOps rt its).2 ⟨h1, h2⟩
       rw [h] at this
       cases this
-  | panic => exact absurd h (batchOpt_ne_panic _ _)
+  | panic => exact absurd h (batchOpt_ne_panic _ _ _)
+
+theorem respKind_operation (reg : List Nat) (o : Nat) : (respKind reg o).operation = o := by
+  unfold respKind
+  split <;> rfl
+
+/-- conforming, all successful, wire-shaped items carry exactly the registered response types of the
+    requested operations. -/
+theorem conforms_payloads (reg : List Nat) : ∀ (items : List Item) (ops : List Nat), Conforms items ops →
+    (∀ bi, bi ∈ items → bi.status = statusSuccess) →
+    (∀ bi, bi ∈ items → ∀ p, bi.payload = some p → bi.op ≠ 0 ∧ p = respKind reg bi.op) →
+    items.map (·.payload) = ops.map (fun o => some (respKind reg o))
+  | [], [], _, _, _ => rfl
+  | [], _ :: _, h, _, _ => by cases h
+  | _ :: _, [], h, _, _ => by cases h
+  | bi :: rest, o :: ops, h, hs, hw => by
+    rw [conforms_cons] at h
+    have ih := conforms_payloads reg rest ops h.2 (fun b hb => hs b (List.mem_cons_of_mem _ hb))
+      (fun b hb => hw b (List.mem_cons_of_mem _ hb))
+    simp only [List.map_cons, ih, List.cons.injEq, and_true]
+    rcases h.1 with hf | ⟨p, hp, hop⟩
+    · exact absurd (hs bi (List.mem_cons_self ..)) hf
+    · have hk := (hw bi (List.mem_cons_self ..) p hp).2
+      rw [hp, hk]
+      rw [hk, respKind_operation] at hop
+      rw [hop]
+
+/-- … and, without any assumption on the shape, payloads of the requested operations. -/
+theorem conforms_operations : ∀ (items : List Item) (ops : List Nat), Conforms items ops →
+    (∀ bi, bi ∈ items → bi.status = statusSuccess) → PayloadsOf (items.map (·.payload)) ops
+  | [], [], _, _ => trivial
+  | [], _ :: _, h, _ => by cases h
+  | _ :: _, [], h, _ => by cases h
+  | bi :: rest, o :: ops, h, hs => by
+    rw [conforms_cons] at h
+    have ih := conforms_operations rest ops h.2 (fun b hb => hs b (List.mem_cons_of_mem _ hb))
+    refine ⟨?_, ih⟩
+    rcases h.1 with hf | ⟨p, hp, hop⟩
+    · exact absurd (hs bi (List.mem_cons_self ..)) hf
+    · exact ⟨p, hp, hop⟩
+
+/-! ### the code before 3ff9e72 (kept to document what that fix repaired) -/
+
+/-- OLD `BatchOpt`: only the counts were compared. -/
+def batchOptOld (nreq : Nat) : RoundTrip → Res (List Item)
+  | .fail => .err .transport
+  | .msg h items =>
+    if h ≠ (items.length : Int) ∨ items.length ≠ nreq then .err .countMismatch
+    else .ok items
+
+/-- OLD `Batch(...)` + `Unwrap()`. -/
+def batchUnwrapOld (t : Tables) (reqOps : List Nat) (rt : RoundTrip) : Res (List (Option Payload) × List Err) :=
+  match batchOptOld reqOps.length rt with
+  | .ok items => .ok (unwrap t items)
+  | .err e => .err e
+  | .panic => .panic
 
 end Kmip.Resp
